@@ -17,9 +17,23 @@ import itertools
 from dataclasses import dataclass, field
 from typing import Any, Callable, Dict, List, Optional, Sequence, Set, Tuple
 
+# A datapoint rule `when A then C` whose antecedent A evaluates to NULL has the outcome NULL (bool_var NULL in modes
+# all / all_measures; not reported in invalid mode; no errorcode / errorlevel).  Decided from the material in the
+# repository (none of the sources says otherwise):
+NULL_ANTECEDENT_SOURCES = [
+    "tests/Bugs GL_117_3 / GL_117_4 (upstream issue #117, expected outputs recorded from the reference implementation): "
+    "datapoint (code_1, 3, 3) with Me_2 = NULL, Me_3 = 1, Id_1 = code_1 under rule 3 `when Me_2 = 2 and Me_3 = 1 then "
+    "Id_1 = \"code_1\"` - antecedent NULL, consequent TRUE - has bool_var NULL in `all` and `all_measures` output; "
+    "replayed by C07 on every run as document oracle (classes `repository example GL_117_*`)",
+    "the SQL of SQLTranspiler._build_dp_rule_sql is written as three-valued logic on purpose: CASE WHEN (A) THEN (C) WHEN "
+    "NOT (A) THEN TRUE ELSE NULL END (an explicit third branch for the NULL antecedent)",
+    "the reference manual's own examples (tests/ReferenceManual RM157 / RM158) contain no NULL antecedent: silent, no "
+    "disagreement",
+    "Interpreter.visit_HRBinOp / Operators/Validation.py in this tree are semantic-only (no value-level evaluation of "
+    "`when`): silent",
+]
+
 UNSPECIFIED = [
-    "datapoint rule whose `when` condition evaluates to NULL: rule value TRUE or NULL (both accepted; never FALSE, never "
-    "reported in invalid mode, no errorcode/errorlevel)",
     "hierarchy / check_hierarchy mode non_zero: produced-or-not when the result (hierarchy) resp. both sides "
     "(check_hierarchy) are 0 although some item is non-zero, and when no item is non-zero but some item is NULL "
     "(manual text and manual example RM133 disagree on C = P + Q = 0)",
@@ -89,7 +103,8 @@ def ev(c: Any, r: Dict[str, Any]) -> Any:
 
 
 def dp_rule_value(rule: Dict[str, Any], r: Dict[str, Any]) -> Any:
-    """TRUE / FALSE / NULL, or OneOf(True, None) where the antecedent is NULL."""
+    """TRUE / FALSE / NULL.  `when A then C`: C where A is TRUE, TRUE where A is FALSE, NULL where A is NULL (see
+    NULL_ANTECEDENT_SOURCES: the outcome of a rule whose antecedent is unknown is unknown)."""
     if rule.get("when") is None:
         return ev(rule["then"], r)
     w = ev(rule["when"], r)
@@ -97,7 +112,7 @@ def dp_rule_value(rule: Dict[str, Any], r: Dict[str, Any]) -> Any:
         return ev(rule["then"], r)
     if w is False:
         return True
-    return OneOf(True, None)
+    return None
 
 
 def rule_ids(rules: Sequence[Dict[str, Any]]) -> List[str]:
